@@ -104,6 +104,13 @@ Definition kinds_compatible (l : list tr) (d : rdesc) : Prop :=
   forall t r k, In t l -> In r (r_secs d) -> t_mid t = r_mid r ->
                 media_kind (r_kind r) = Some k -> t_kind t = k.
 
+(* ---------- the remote BUNDLE group as answers read it ---------- *)
+(* the tags bundleMatchFromRemote compares with: the remote a=group value with
+   the leading characters of "BUNDLE" trimmed, split at spaces *)
+Definition remote_group_value (d : rdesc) : string :=
+  trim_left_bundle (match r_group d with Some v => v | None => EmptyString end).
+Definition in_remote_group (d : rdesc) (m : string) : bool := bundle_match (Some (remote_group_value d)) m.
+
 (* ---------- C09: the descriptions a history applies ---------- *)
 Definition mids_of_r (d : rdesc) : list (option string) := map Some (map r_mid (r_secs d)).
 Definition mids_of_l (d : option ldesc) : list (option string) :=
